@@ -219,6 +219,11 @@ func (z *zmodemTransfer) handleServerOutput(buf []byte) bool {
 	if bytes.Contains(buf, zmodemCancelSubSequence) || bytes.Contains(buf, zmodemCanNotOpenFile) {
 		z.cleaned.Store(true)
 		z.stopped.Store(true)
+		if cmd := z.cmd.Load(); cmd != nil {
+			// the helper was launched while this cancel was being looked at: nobody else will tell it
+			_ = writeAll(z.stdin, zmodemCancelFullSequence)
+			z.ensureClientExit(cmd)
+		}
 		return false
 	}
 
